@@ -27,6 +27,10 @@ def seg_kinds(ifs):
         ("qvar", [X.Q('"', X.P("v"))]),
         ("len", [X.P("v", "#")]),        # ${#v}: generated text, split like any unquoted expansion
         ("qlen", [X.Q('"', X.P("v", "#"))]),
+        # an unquoted ${u-word} of an unset parameter: it adds the fields of its word to the current field; with an empty word it adds
+        # nothing and must not take anything away either (an empty quoted part before it still gives a field)
+        ("defempty", [X.P("u", "-", [])]),
+        ("defvar", [X.P("u", ":-", [X.P("v")])]),
     ]
     return kinds
 
@@ -48,7 +52,7 @@ class P:
             eff = " \t\n" if ifs is None else ifs
             val = ("x" + eff[0] + eff[-1] + "y" + eff[0]) if eff else "x y"
             for n in range(0, N + 1):
-                pool = kinds if n <= 4 else kinds[:7]
+                pool = kinds if n <= 3 else (kinds[:11] if n == 4 else kinds[:7])
                 for combo in itertools.product(pool, repeat=n):
                     parts = [p for _, ps in combo for p in ps]
                     cases.append(X.case(["sh"], X.NOGLOB, {"IFS": ifs, "v": val}, 0, parts))
@@ -77,7 +81,8 @@ class P:
                 elif k < 0.9:
                     parts.append(X.P(rnd.choice("vwu")))
                 else:
-                    parts.append(X.P(rnd.choice("vwu"), rnd.choice([":-", "-", ":+", "+"]), [X.L(t), X.Q("'", X.L(t))]))
+                    parts.append(X.P(rnd.choice("vwu"), rnd.choice([":-", "-", ":+", "+"]),
+                                     rnd.choice([[X.L(t), X.Q("'", X.L(t))], [], [X.L(t)], [X.P("u")], [X.P("v")], [X.Q('"')], [X.P("u"), X.Q("'", X.L(""))]])))
             rc.append(X.case(["sh", "p q", ""], X.NOGLOB, vs, 0, parts))
 
         # invalid UTF-8 in values and U+FFFD / invalid bytes in IFS: a rune decoded as RuneError has width 1, not RuneLen = 3
